@@ -1026,8 +1026,14 @@ def run_real_traced(case, tracer):
                 PUBLIC_IDS.clear()
                 PUBLIC_IDS.update(id(x) for x in walk(top))
             elif op[0] == "gc":
-                keep = keep[op[1] % (len(keep) + 1):]
+                # the dropped canvases become garbage together, through a reference cycle: the cycle collector finds them
+                # dead in ONE pass and runs their weakref callbacks in its own order (not parent-before-child)
+                n = op[1] % (len(keep) + 1)
+                cyc = [keep[:n]]
+                cyc.append(cyc)
+                keep = keep[n:]
                 snaps = [s for s in snaps if any(s[0] is k for k in keep)]
+                del cyc
                 gc.collect()
             elif op[0] == "clear":
                 CanvasCache.clear()
@@ -1149,7 +1155,6 @@ class C06(core.Check):
         sys.unraisablehook = hook
         try:
             res = run_bk(case) if case.get("kind") == "bk" else run_real(case)
-            gc.collect()
         finally:
             sys.unraisablehook = old_hook
         res["unraisable"] = sorted(set(swallowed))
